@@ -228,7 +228,7 @@ func ruleNAM3(c *Ctx) {
 			}
 		}
 		c.Check(okDel, construct+" / marks the entry Deleted", p.Pos(worker.Pos()), "Deleted = true", "the removed entry is not marked Deleted: it keeps matching and firing")
-		// tombstone key: for the library (whose blueprint is cloned afterwards) it must be unique per removal
+		// tombstone key: unique per removal, for the library's blueprint and for an instance alike
 		var keyVal ssa.Value
 		for _, b := range worker.Blocks {
 			for _, in := range b.Instrs {
@@ -239,7 +239,7 @@ func ruleNAM3(c *Ctx) {
 				}
 			}
 		}
-		if typ == "KnowledgeLibrary" {
+		if typ == "KnowledgeLibrary" || typ == "KnowledgeBase" {
 			uniqueKey := false
 			if keyVal != nil {
 				// the key is the entry's (new) RuleName; find what was stored into RuleName
@@ -264,7 +264,7 @@ func ruleNAM3(c *Ctx) {
 					}
 				}
 			}
-			c.Check(uniqueKey, construct+" / tombstone key is unique per removal", p.Pos(worker.Pos()), "tombstone name derives from a fresh uuid", "the tombstone of a rule removed from the library is keyed by a name derived from the rule name: removing the same name twice overwrites the first tombstone, orphans its nodes in the working memory and every later NewKnowledgeBaseInstance fails")
+			c.Check(uniqueKey, construct+" / tombstone key is unique per removal", p.Pos(worker.Pos()), "tombstone name derives from a fresh uuid", "the tombstone of a removed rule is keyed by a name derived from the rule name: removing the same name twice overwrites the first tombstone (orphaning its nodes in the working memory, after which cloning fails), and removing rule X silently replaces a live rule that happens to be called Deleted_X")
 		}
 		c.Check(keyVal != nil, construct+" / tombstone kept in RuleEntries", p.Pos(worker.Pos()), "entry re-inserted under its tombstone name (its nodes stay reachable for cloning)", "the removed entry is dropped from RuleEntries: its nodes become orphans of the working memory and cloning fails")
 	}
